@@ -12,7 +12,7 @@ DISTINCT_RULE = (
 RULES = ["transition", "status-log", "frozen-matched", "request-guard", "rejected-no-side-effect"]
 MINIMA = {"quick": {"rule_transition": 20000, "rule_request-guard": 2000}, "thorough": {"rule_transition": 600000}}
 ASSUMPTIONS = ["every status change goes through BaseOrder._update_status (hooked on the class)", "simulation paths only in this module; live paths in vf/checks/c03 live section"]
-WEIGHTS = [("hostile", 4), ("fastlat", 3), ("plain", 1), ("multi", 1), ("event", 1), ("thin", 1), ("lines", 1), ("recorded", 1), ("recorded_event", 1)]
+WEIGHTS = [("hostile", 4), ("fastlat", 3), ("plain", 1), ("multi", 1), ("event", 1), ("thin", 1), ("lines", 1), ("recorded", 1), ("recorded_event", 1), ("nobpe", 1)]
 SCRIPT = {"p_cancel": 0.45, "p_update": 0.2, "p_replace": 0.3, "p_second_op": 0.6, "n_orders": (2, 8), "p_any_step": 0.3}
 
 
